@@ -246,6 +246,12 @@ func C01(e *Env) {
 					run.Inconclusive(res.Fail.Error())
 					return
 				}
+				// C01 claims the answers to paths that lexically leave the root (or use a virtual prefix /
+				// NUL); a wrong answer to an ordinary inside path belongs to C02/C05/C06
+				if !(esc || virt != model.VirtNone || bytes.IndexByte(j.path.p, 0) >= 0) || res.FailAt < len(j.hist) {
+					run.Count("other_property_failures_not_judged", 1)
+					return
+				}
 				run.Violate(res.Fail.Rule, fmt.Sprintf("%s %s", j.op, j.path.class), fmt.Sprintf("[allow_write=%v] %s", aw, res.Fail.Detail), map[string]any{"allow_write": aw, "path": string(j.path.p), "path_hex": hex.EncodeToString(head32(j.path.p)), "class": j.path.class, "opcode": j.op.String(), "history": reqStrings(j.hist), "transcript": tailStr(res.Log, 8)})
 			}
 		})
@@ -535,7 +541,11 @@ func c01Strace(e *Env, base, root string, paths []c01Path) {
 						c01Restore(root)
 					}
 					run.Eval(1)
-					if res.Fail != nil && !res.Fail.Inconclusive {
+					_, _, escP := w.Resolve(pa.p)
+					virtP, _, _ := model.VirtualOf(pa.p)
+					if res.Fail != nil && !res.Fail.Inconclusive && !(escP || virtP != model.VirtNone || bytes.IndexByte(pa.p, 0) >= 0) {
+						run.Count("other_property_failures_not_judged", 1)
+					} else if res.Fail != nil && !res.Fail.Inconclusive {
 						run.Violate("bin-"+res.Fail.Rule, fmt.Sprintf("%s %s", op, pa.class), fmt.Sprintf("[binary, root spelled %q, allow_write=%v] %s", sp.name, aw, res.Fail.Detail), map[string]any{"spelling": sp.name, "args": sp.args, "path": string(pa.p)})
 					}
 				}
